@@ -69,6 +69,28 @@ class _Poisson(_Proxy):
         return _ew(lambda k, m: XR(f(_floor_int(k), R(m).v)), x, mu)
 
 
+class _Frozen:
+    """frozen distribution: dist(*params).cdf(x) is dist.cdf(x, *params)"""
+    def __init__(self, dist, params, kw):
+        self._dist, self._params, self._kw = dist, params, kw
+
+    def cdf(self, x):
+        return self._dist.cdf(x, *self._params, **self._kw)
+
+    def ppf(self, q):
+        return self._dist.ppf(q, *self._params, **self._kw)
+
+    def sf(self, x):
+        return self._dist.sf(x, *self._params, **self._kw)
+
+    def __getattr__(self, k):
+        raise NotModelled('frozen distribution method %s' % k)
+
+
+def _freeze(self, *params, **kw):
+    return _Frozen(self, params, kw)
+
+
 class _NBinom(_Proxy):
     def cdf(self, x, n, p, loc=0):
         if symnp.all_concrete(x, n, p):
@@ -93,6 +115,10 @@ class _Norm(_Proxy):
             return symnp.delegate(self._real.sf, z, **kw)
         f = core.uf('Nsf', 1)
         return _ew(lambda a: XR(f(R(a).v)), z)
+
+
+for _c in (_Poisson, _NBinom, _StudentT, _Norm):
+    _c.__call__ = _freeze
 
 
 class _Distributions(_Proxy):
